@@ -141,6 +141,9 @@ def gen_batch(r, bi, services=False, can=False, n_random=(6, 9), out_of_order=Tr
             add(nm, [("v", 0, ("u", w)), ("w", 1, ("i", min(64 - w, 11)))])
             bus = buses[k % len(buses)]
             idv = r.choice([x for x in range(0, 2048) if x not in ids])
+            if nm == "M":
+                # bus names that coincide with the spellings generated code uses for "no bus" / "not found"
+                bus = ["unkn", "None", "null", bus][bi % 4]
             if nm.startswith("Cn") and can_bindings:
                 # the SAME frame id as the first binding, on another bus
                 bus = next(b_ for b_ in buses if b_ != can_bindings[0][2])
